@@ -1,4 +1,5 @@
 import OV.Lemmas.C01Sim
+import OV.Lemmas.C01Attr
 /-!
 # Lemmas for C01: forward simulation for straight-line code with nested `if`/`else`
 
@@ -576,9 +577,9 @@ theorem emitCopy_castable {o sug x : Name} {ns : List Node} {s s' : St}
   exact (genUnique_spec hn).2.2
 
 theorem blockOutputs_sim (S : Sem V) (fuel : Nat) (hId : ∀ v, S.op "" "Identity" [some v] [] = some [v])
-    {ρ' : Store V} (Lt : Locals) (hA : NoAttrBind Lt) :
+    {ρ' : Store V} (Lt : Locals) :
     ∀ (vs : List Name) (sofar : List Node) (outs : List Name) {env : Env V} {s s' : St} {os : List Name}
-      {ns : List Node}, VisOK s.used Lt →
+      {ns : List Node}, VisOK s.used Lt → FreeOf Lt vs →
       (∀ pv, pv ∈ vs → ∀ n, lookup Lt pv = some (.val n) → ∃ v, env n = some v ∧ ρ' pv = some (.t v)) →
       blockOutputs Lt vs sofar outs s = .ok ((os, ns), s') →
       ∃ env', evalNodes S fuel env ns = some env' ∧ Ext env env' s s' ∧ s'.castable = s.castable ∧ Mono s s'
@@ -586,13 +587,14 @@ theorem blockOutputs_sim (S : Sem V) (fuel : Nat) (hId : ∀ v, S.op "" "Identit
   intro vs
   induction vs with
   | nil =>
-    intro sofar outs env s s' os ns _ _ h
+    intro sofar outs env s s' os ns _ _ _ h
     unfold blockOutputs at h
     obtain ⟨e1, e2⟩ := pure_ok h
     cases e1; subst e2
     exact ⟨env, evalNodes_nil _ _ _, Ext.refl _ _, rfl, Mono.refl _, All2.nil⟩
   | cons pv rest ih =>
-    intro sofar outs env s s' os ns hL hf h
+    intro sofar outs env s s' os ns hL hA hf h
+    have hAr : FreeOf Lt rest := hA.sub (fun x hx => List.mem_cons_of_mem _ hx)
     have hfr := blockOutputs_fresh Lt _ _ _ h
     unfold blockOutputs at h
     -- the binding the converter reads, whichever way it finds it
@@ -600,7 +602,7 @@ theorem blockOutputs_sim (S : Sem V) (fuel : Nat) (hId : ∀ v, S.op "" "Identit
         ∃ n v, b = .val n ∧ env n = some v ∧ ρ' pv = some (.t v) ∧ n ∈ s.used := by
       intro b hb
       cases b with
-      | attr p ty => exact absurd hb (hA pv p ty)
+      | attr p ty => exact absurd hb (hA pv List.mem_cons_self p ty)
       | val n =>
         obtain ⟨v, h1, h2⟩ := hf pv List.mem_cons_self n hb
         exact ⟨n, v, rfl, h1, h2, hL.lookup hb⟩
@@ -629,7 +631,7 @@ theorem blockOutputs_sim (S : Sem V) (fuel : Nat) (hId : ∀ v, S.op "" "Identit
       cases e1; subst e2
       obtain ⟨ev2, x2, hu2, m2⟩ := emitCopy_sim S fuel hId hn h2
       have hc2 := emitCopy_castable h2
-      obtain ⟨env3, ev3, x3, hc3, m3, a3⟩ := ih _ _ (hL.mono m2) (restf x2 m2) h3
+      obtain ⟨env3, ev3, x3, hc3, m3, a3⟩ := ih _ _ (hL.mono m2) hAr (restf x2 m2) h3
       refine ⟨env3, by simpa using evalNodes_seq ev2 ev3, x2.trans m2 x3, by rw [hc3, hc2], m2.trans m3, ?_⟩
       exact All2.cons _ _ _ _ ⟨v, by rw [x3.envSame _ hu2]; exact Env.set_same _ _ _, hρ⟩ a3
     cases hc : currentScopeFind Lt pv with
@@ -647,7 +649,7 @@ theorem blockOutputs_sim (S : Sem V) (fuel : Nat) (hId : ∀ v, S.op "" "Identit
         try dsimp only at h
         obtain ⟨e1, e2⟩ := pure_ok h
         cases e1; subst e2
-        obtain ⟨env3, ev3, x3, hc3, m3, a3⟩ := ih _ _ hL (restf (Ext.refl _ _) (Mono.refl _)) h2
+        obtain ⟨env3, ev3, x3, hc3, m3, a3⟩ := ih _ _ hL hAr (restf (Ext.refl _ _) (Mono.refl _)) h2
         refine ⟨env3, by simpa using ev3, x3, hc3, m3, ?_⟩
         exact All2.cons _ _ _ _ ⟨v, by rw [x3.envSame _ hnu]; exact hn, hρ⟩ a3
       · rw [if_neg hin] at h
@@ -1385,6 +1387,7 @@ theorem branch_run (S : Sem V) (fuel : Nat) (hId : ∀ v, S.op "" "Identity" [so
       convStmts ([] :: L) ss lo s = .ok ((L', ns), s') →
       ∃ env', evalNodes S fuel env ns = some env' ∧ Inv S lo ρ' L' env' s' ∧ Ext env env' s s' ∧ Mono s s')
     (hinv : Inv S (liveInBlock ss lo) ρ L env1 sA) (hld : ∀ x, x ∈ liveDefs → x ∈ lo)
+    (hfreeB : FreeOf Lb liveDefs)
     (he : evalBlock S fuel ss ρ = some (.normal ρ'))
     (h2 : convStmts ([] :: L) ss lo sA = .ok ((Lb, bn), sB))
     (h3 : blockOutputs Lb liveDefs bn [] sB = .ok ((bo, bn2), sC)) :
@@ -1402,7 +1405,7 @@ theorem branch_run (S : Sem V) (fuel : Nat) (hId : ∀ v, S.op "" "Identity" [so
       rw [hl] at hl'
       cases hl'
       exact ⟨v, hr.1, rfl⟩
-  obtain ⟨envT2, evT2, _, _, _, aT2⟩ := blockOutputs_sim S fuel hId Lb invT.noattr liveDefs bn [] invT.vis hfT h3
+  obtain ⟨envT2, evT2, _, _, _, aT2⟩ := blockOutputs_sim S fuel hId Lb liveDefs bn [] invT.vis hfreeB hfT h3
   obtain ⟨rs, hrs, hall⟩ := outs_values aT2
   exact ⟨envT2, rs, evalNodes_seq evT evT2, hrs, hall, invT.allT⟩
 
@@ -1410,16 +1413,16 @@ mutual
 theorem stmt_step (S : Sem V) (fuel : Nat) (hConst : ∀ l, ∃ c, constOf S l = some c)
     (hId : ∀ v, S.op "" "Identity" [some v] [] = some [v]) :
     ∀ (st : Stmt) (lo : VSet) {ρ ρ' : Store V} {L L' : Locals} {env : Env V} {s s' : St} {ns : List Node},
-    ifStmt st = true → Inv S (liveInStmt st lo) ρ L env s →
+    ifStmt st = true → FreeOf L (targetsStmt st) → Inv S (liveInStmt st lo) ρ L env s →
     evalStmt S fuel st ρ = some (.normal ρ') → convStmt L st lo s = .ok ((L', ns), s') →
     ∃ env', evalNodes S fuel env ns = some env' ∧ Inv S lo ρ' L' env' s' ∧ Ext env env' s s' ∧ Mono s s'
-  | .assign x e, lo, ρ, ρ', L, L', env, s, s', ns, hi, hinv, he, h => by
+  | .assign x e, lo, ρ, ρ', L, L', env, s, s', ns, hi, _, hinv, he, h => by
     simp only [ifStmt] at hi
     exact assign_step S fuel hConst hi hinv he h
-  | .par xs es, lo, ρ, ρ', L, L', env, s, s', ns, hi, hinv, he, h => by
+  | .par xs es, lo, ρ, ρ', L, L', env, s, s', ns, hi, _, hinv, he, h => by
     simp only [ifStmt] at hi
     exact par_step S fuel hConst hi hinv he h
-  | .skip, lo, ρ, ρ', L, L', env, s, s', ns, hi, hinv, he, h => by
+  | .skip, lo, ρ, ρ', L, L', env, s, s', ns, hi, _, hinv, he, h => by
     unfold evalStmt at he
     cases he
     unfold convStmt at h
@@ -1427,7 +1430,7 @@ theorem stmt_step (S : Sem V) (fuel : Nat) (hConst : ∀ l, ∃ c, constOf S l =
     cases q1; subst q2
     unfold liveInStmt at hinv
     exact ⟨env, evalNodes_nil _ _ _, hinv, Ext.refl _ _, Mono.refl _⟩
-  | .ite c t e, lo, ρ, ρ', L, L', env, s, s', ns, hi0, hinv, he, h => by
+  | .ite c t e, lo, ρ, ρ', L, L', env, s, s', ns, hi0, hfree, hinv, he, h => by
     have hfr := convStmt_fresh L _ lo h
     have hsc := convStmt_scope L _ lo hinv.vis (fun x hx => hx) h
     have hcast := ifStmt_cast L _ lo hi0 h
@@ -1486,6 +1489,12 @@ theorem stmt_step (S : Sem V) (fuel : Nat) (hConst : ∀ l, ∃ c, constOf S l =
                     cases ha
                     exact ⟨ta, ea, rfl, rfl, rfl⟩
               have hld : ∀ x, x ∈ vinter lo defs → x ∈ lo := fun x hx => (mem_vinter.mp hx).1
+              have hfreeT : FreeOf ([] :: L) (targetsBlock t) :=
+                (hfree.sub (fun x hx => by simp [targetsStmt, hx])).mono (AttrMono.push L)
+              have hfreeE : FreeOf ([] :: L) (targetsBlock e) :=
+                (hfree.sub (fun x hx => by simp [targetsStmt, hx])).mono (AttrMono.push L)
+              have hfreeD : FreeOf ([] :: L) (vinter lo defs) :=
+                (hfree.sub (fun x hx => assigned_sub_targets _ ha x (mem_vinter.mp hx).2)).mono (AttrMono.push L)
               -- condition
               have hLv : ∀ y, y ∈ usedVars c → y ∈ liveInStmt (.ite c t e) lo := by
                 intro y hy; unfold liveInStmt; exact mem_vunion.mpr (Or.inr hy)
@@ -1551,7 +1560,8 @@ theorem stmt_step (S : Sem V) (fuel : Nat) (hConst : ∀ l, ∃ c, constOf S l =
                   intro y hy; unfold liveInStmt
                   exact mem_vunion.mpr (Or.inl (mem_vunion.mpr (Or.inl hy))))
                 obtain ⟨envB, rs, evB, hrs, hall, _⟩ := branch_run S fuel hId
-                  (fun hi' he' hc' => block_step S fuel hConst hId t lo hi.1.2 hi' he' hc') hinvT hld he h2 h3
+                  (fun hi' he' hc' => block_step S fuel hConst hId t lo hi.1.2 hfreeT hi' he' hc') hinvT hld
+                  (hfreeD.mono (convStmts_attrMono _ _ _ h2)) he h2 h3
                 have hlen : rs.length = renamed.length := by rw [all2_len hall, l6]
                 refine finish rs ta (fun x hx => by rw [hdefs]; exact mem_vunion.mpr (Or.inl hx))
                   (by rw [← hta]; exact runT) hall ?_
@@ -1567,25 +1577,26 @@ theorem stmt_step (S : Sem V) (fuel : Nat) (hConst : ∀ l, ∃ c, constOf S l =
                   intro y hy; unfold liveInStmt
                   exact mem_vunion.mpr (Or.inl (mem_vunion.mpr (Or.inr hy))))
                 obtain ⟨envB, rs, evB, hrs, hall, _⟩ := branch_run S fuel hId
-                  (fun hi' he' hc' => block_step S fuel hConst hId e lo hi.2 hi' he' hc') hinvE hld he h4 h5
+                  (fun hi' he' hc' => block_step S fuel hConst hId e lo hi.2 hfreeE hi' he' hc') hinvE hld
+                  (hfreeD.mono (convStmts_attrMono _ _ _ h4)) he h4 h5
                 have hlen : rs.length = renamed.length := by rw [all2_len hall, l6]
                 refine finish rs ea (fun x hx => by rw [hdefs]; exact mem_vunion.mpr (Or.inr hx))
                   (by rw [← hea]; exact runE) hall ?_
                 simp [evalNodes, evalNode, r1.1, hb, evB, Env.getMany, hrs, hlen]
-  | .tuple _ _, _, _, _, _, _, _, _, _, _, hi, _, _, _ => by simp [ifStmt] at hi
-  | .badAssign _ _, _, _, _, _, _, _, _, _, _, hi, _, _, _ => by simp [ifStmt] at hi
-  | .for_ _ _ _ _, _, _, _, _, _, _, _, _, _, hi, _, _, _ => by simp [ifStmt] at hi
-  | .while_ _ _, _, _, _, _, _, _, _, _, _, hi, _, _, _ => by simp [ifStmt] at hi
-  | .brk _, _, _, _, _, _, _, _, _, _, hi, _, _, _ => by simp [ifStmt] at hi
-  | .ret _ _, _, _, _, _, _, _, _, _, _, hi, _, _, _ => by simp [ifStmt] at hi
-  | .unsupported, _, _, _, _, _, _, _, _, _, hi, _, _, _ => by simp [ifStmt] at hi
+  | .tuple _ _, _, _, _, _, _, _, _, _, _, hi, _, _, _, _ => by simp [ifStmt] at hi
+  | .badAssign _ _, _, _, _, _, _, _, _, _, _, hi, _, _, _, _ => by simp [ifStmt] at hi
+  | .for_ _ _ _ _, _, _, _, _, _, _, _, _, _, hi, _, _, _, _ => by simp [ifStmt] at hi
+  | .while_ _ _, _, _, _, _, _, _, _, _, _, hi, _, _, _, _ => by simp [ifStmt] at hi
+  | .brk _, _, _, _, _, _, _, _, _, _, hi, _, _, _, _ => by simp [ifStmt] at hi
+  | .ret _ _, _, _, _, _, _, _, _, _, _, hi, _, _, _, _ => by simp [ifStmt] at hi
+  | .unsupported, _, _, _, _, _, _, _, _, _, hi, _, _, _, _ => by simp [ifStmt] at hi
 theorem block_step (S : Sem V) (fuel : Nat) (hConst : ∀ l, ∃ c, constOf S l = some c)
     (hId : ∀ v, S.op "" "Identity" [some v] [] = some [v]) :
     ∀ (ss : List Stmt) (lo : VSet) {ρ ρ' : Store V} {L L' : Locals} {env : Env V} {s s' : St} {ns : List Node},
-    ifBlock ss = true → Inv S (liveInBlock ss lo) ρ L env s →
+    ifBlock ss = true → FreeOf L (targetsBlock ss) → Inv S (liveInBlock ss lo) ρ L env s →
     evalBlock S fuel ss ρ = some (.normal ρ') → convStmts L ss lo s = .ok ((L', ns), s') →
     ∃ env', evalNodes S fuel env ns = some env' ∧ Inv S lo ρ' L' env' s' ∧ Ext env env' s s' ∧ Mono s s'
-  | [], lo, ρ, ρ', L, L', env, s, s', ns, _, hinv, he, h => by
+  | [], lo, ρ, ρ', L, L', env, s, s', ns, _, _, hinv, he, h => by
     unfold evalBlock at he
     cases he
     unfold convStmts at h
@@ -1593,7 +1604,7 @@ theorem block_step (S : Sem V) (fuel : Nat) (hConst : ∀ l, ∃ c, constOf S l 
     cases q1; subst q2
     unfold liveInBlock at hinv
     exact ⟨env, evalNodes_nil _ _ _, hinv, Ext.refl _ _, Mono.refl _⟩
-  | st :: ss, lo, ρ, ρ', L, L', env, s, s', ns, hi, hinv, he, h => by
+  | st :: ss, lo, ρ, ρ', L, L', env, s, s', ns, hi, hfree, hinv, he, h => by
     simp only [ifBlock, Bool.and_eq_true] at hi
     unfold liveInBlock at hinv
     unfold evalBlock at he
@@ -1611,8 +1622,9 @@ theorem block_step (S : Sem V) (fuel : Nat) (hConst : ∀ l, ∃ c, constOf S l 
       try dsimp only at h
       obtain ⟨q1, q2⟩ := pure_ok h
       cases q1; subst q2
-      obtain ⟨env1, ev1, inv1, x1, m1⟩ := stmt_step S fuel hConst hId st _ hi.1 hinv hs h1
-      obtain ⟨env2, ev2, inv2, x2, m2⟩ := block_step S fuel hConst hId ss lo hi.2 inv1 he h2
+      obtain ⟨env1, ev1, inv1, x1, m1⟩ := stmt_step S fuel hConst hId st _ hi.1 hfree.head.1 hinv hs h1
+      obtain ⟨env2, ev2, inv2, x2, m2⟩ := block_step S fuel hConst hId ss lo hi.2
+        (hfree.head.2.mono (convStmt_attrMono L st _ h1)) inv1 he h2
       exact ⟨env2, evalNodes_seq ev1 ev2, inv2, x1.trans m1 x2, m1.trans m2⟩
 end
 
@@ -1641,7 +1653,7 @@ theorem convTop_if_sim (S : Sem V) (fuel : Nat) (hConst : ∀ l, ∃ c, constOf 
     (hId : ∀ v, S.op "" "Identity" [some v] [] = some [v]) {inputs : List Name} {rc : Option Nat} :
     ∀ (body : List Stmt) (L : Locals) {ρ : Store V} {env : Env V} {s s' : St} {ns : List Node}
       {outs : List Name} {pvs : List (PV V)} {vs : List V},
-      ifLine body = true → Inv S (liveInBlock body []) ρ L env s →
+      ifLine body = true → FreeOf L (targetsBlock body) → Inv S (liveInBlock body []) ρ L env s →
       evalBlock S fuel body ρ = some (.returned pvs) → pvs.mapM (toTensor S) = some vs →
       convTop inputs rc L body [] s = .ok ((ns, outs), s') →
       ∃ env', evalNodes S fuel env ns = some env' ∧ outs.mapM env' = some vs := by
@@ -1649,7 +1661,7 @@ theorem convTop_if_sim (S : Sem V) (fuel : Nat) (hConst : ∀ l, ∃ c, constOf 
   induction body with
   | nil => intro L ρ env s s' ns outs pvs vs hi; simp [ifLine] at hi
   | cons st ss ih =>
-    intro L ρ env s s' ns outs pvs vs hi hinv he hv h
+    intro L ρ env s s' ns outs pvs vs hi hfree hinv he hv h
     rcases ifLine_cons hi with ⟨es, rfl, rfl⟩ | ⟨hst, hss⟩
     · -- the final return
       simp only [liveInBlock, liveInStmt] at hinv
@@ -1709,8 +1721,8 @@ theorem convTop_if_sim (S : Sem V) (fuel : Nat) (hConst : ∀ l, ∃ c, constOf 
         try dsimp only at h
         obtain ⟨q1, q2⟩ := pure_ok h
         cases q1
-        obtain ⟨env1, ev1, inv1, _, _⟩ := stmt_step S fuel hConst hId st _ hst hinv hs h1
-        obtain ⟨env2, ev2, hm2⟩ := ih L1 hss inv1 he hv h2
+        obtain ⟨env1, ev1, inv1, _, _⟩ := stmt_step S fuel hConst hId st _ hst hfree.head.1 hinv hs h1
+        obtain ⟨env2, ev2, hm2⟩ := ih L1 hss (hfree.head.2.mono (convStmt_attrMono L st _ h1)) inv1 he hv h2
         exact ⟨env2, evalNodes_seq ev1 ev2, hm2⟩
 
 theorem paramFrame_key : ∀ (ps : List Param) (x n : Name), (x, Bind.val n) ∈ paramFrame ps →
@@ -1739,7 +1751,7 @@ theorem paramFrame_key : ∀ (ps : List Param) (x n : Name), (x, Bind.val n) ∈
 /-- **Refinement for functions made of assignments and nested `if`/`else`.** -/
 theorem convert_correct_if (S : Sem V) (hConst : ∀ l, ∃ c, constOf S l = some c)
     (hId : ∀ v, S.op "" "Identity" [some v] [] = some [v]) {f : Func} {g : Graph}
-    (hil : ifLine f.body = true) (hten : AllTensorParams f.params)
+    (hil : ifLine f.body = true) (hattr : ∀ p, p ∈ attrParams f.params → p ∉ targetsBlock f.body)
     (hnames : (f.params.map Param.name).Nodup) (h : convert f = .ok g)
     {fuel : Nat} {args vs : List V} (he : evalFunc S fuel f args = some vs) :
     evalGraph S fuel g args = some vs := by
@@ -1780,7 +1792,7 @@ theorem convert_correct_if (S : Sem V) (hConst : ∀ l, ∃ c, constOf S l = som
                 (Store.setMany (fun _ => none) (tensorParams f.params) (args.map PV.t))
                 [paramFrame f.params] (Env.setMany (fun _ => none) (tensorParams f.params) args)
                 { used := (tensorParams f.params).reverse, next := 0, castable := [] } := by
-              refine ⟨hL, noAttrBind_params hten, (fun n hn => by cases hn), ?_, ?_, ?_⟩
+              refine ⟨hL, noAttrBind_paramFrame _, (fun n hn => by cases hn), ?_, ?_, ?_⟩
               · intro x pv hx
                 rw [hrelst] at hx
                 cases hev : Env.setMany (fun _ => none) (tensorParams f.params) args x with
@@ -1807,7 +1819,7 @@ theorem convert_correct_if (S : Sem V) (hConst : ∀ l, ∃ c, constOf S l = som
                 subst hfr
                 exact setMany_defined _ _ _ x (by simpa using hlen.symm) (paramFrame_key _ x n hm)
             obtain ⟨env', ev, hm⟩ := convTop_if_sim S fuel hConst hId f.body [paramFrame f.params] hil
-              hinv hb he hc
+              (freeOf_paramFrame _ _ hattr) hinv hb he hc
             unfold evalGraph
             simp only [hlen, if_true, ev]
             exact hm
